@@ -7,6 +7,8 @@ serial.  A reference model of the two queues (sorted lists of (due, seq)) predic
 event each macro step consumes; at every newly discovered state the interpreter is drained and
 every queued event must have been consumed exactly once, in the predicted order."""
 import collections
+import copy
+import pickle
 import time as _time
 
 from mc import harness, probes
@@ -89,6 +91,8 @@ def ops_for(kind):
     ops += [('exec', -1), ('exec', 2)]
     # one and the same Event object queued twice: two events
     ops += [('qsame', 'x')]
+    # the interpreter is replaced by a snapshot of itself
+    ops += [('snapstep', 'pickle'), ('snapstep', 'copy')]
     return ops
 
 
@@ -166,6 +170,23 @@ class RefQueues:
         return (q(self.internal), q(self.external), min(self.clock - self.now, 3))
 
 
+class Handle:
+    """the interpreter under test, replaceable in the middle of a run by a restored snapshot of itself"""
+
+    def __init__(self, it):
+        object.__setattr__(self, '_it', it)
+
+    def __getattr__(self, name):
+        return getattr(object.__getattribute__(self, '_it'), name)
+
+    def snap(self, how, listener_log):
+        it = object.__getattribute__(self, '_it')
+        it.detach(listener_log.append)          # the harness's own listener is not part of the snapshot
+        clone = pickle.loads(pickle.dumps(it)) if how == 'pickle' else copy.deepcopy(it)
+        clone.attach(listener_log.append)
+        object.__setattr__(self, '_it', clone)
+
+
 def apply_op(it, ref, op, listener_log):
     """apply op to implementation and reference; -> list of discrepancy strings"""
     errs = []
@@ -189,6 +210,14 @@ def apply_op(it, ref, op, listener_log):
         s1 = ref.queue(op[1], 0)
         s2 = ref.queue(op[2], 0)
         it.queue(Event(op[1], s=s1), Event(op[2], s=s2))
+    elif k == 'snapstep':
+        # the run goes on with a pickled / deep-copied snapshot of the interpreter: nothing about the queues changes;
+        # the snapshot then executes a step (the explorer drains it afterwards)
+        try:
+            it.snap(op[1], listener_log)
+        except Exception as e:
+            return ['snapshot (%s) failed: %s: %s' % (op[1], type(e).__name__, str(e)[:80])]
+        return apply_op(it, ref, ('step', False), listener_log)
     elif k == 'qsame':
         s1 = ref.queue(op[1], 0)
         ref._put(ref.external, ref.now, s1, op[1])
@@ -308,7 +337,7 @@ def crosscheck(it, ref):
 
 
 def build(kind, sc, hist):
-    it = Interpreter(sc, initial_context=probes.CONTEXT())
+    it = Handle(Interpreter(sc, initial_context=probes.CONTEXT()))
     listener_log = []
     it.attach(listener_log.append)
     ref = RefQueues(kind)
@@ -393,6 +422,11 @@ def expand(task):
             errs = crosscheck(it, ref)
         res['transitions'] += 1
         res['outcomes'][op[0]] += 1
+        if op[0] == 'snapstep' and not errs:
+            # the state reached is usually known already (a snapshot changes nothing): the future of the restored
+            # interpreter is checked here and now, on a second copy of the run
+            it2, ref2, ll2 = build(kind, sc, hist + (op,))
+            errs = ['after the snapshot: ' + e for e in drain_check(it2, ref2, ll2)]
         for e in errs:
             viol(hist, op, e)
         if not errs:
